@@ -232,6 +232,9 @@ pub struct GOpts {
     /// "an incompletely read file is never reported" does not depend on the last stage)
     #[serde(default)]
     pub skip_content_hash: bool,
+    /// --no-copy: the transform program gets the original file as $IN
+    #[serde(default)]
+    pub no_copy: bool,
 }
 
 impl Default for GOpts {
@@ -251,6 +254,7 @@ impl Default for GOpts {
             rf: RfOpt::Default,
             min0: false,
             skip_content_hash: false,
+            no_copy: false,
         }
     }
 }
@@ -331,6 +335,7 @@ pub fn gopts_strategy(p: OptProfile) -> BoxedStrategy<GOpts> {
                 rf: if rf { rfo } else { RfOpt::Default },
                 min0,
                 skip_content_hash: false,
+                no_copy: false,
             };
             if o.isolate {
                 o.follow_links = false; // clap conflict
@@ -430,6 +435,9 @@ impl GOpts {
         }
         if self.skip_content_hash {
             push("--skip-content-hash");
+        }
+        if self.no_copy && self.transform.is_some() {
+            push("--no-copy");
         }
         if self.min0 {
             push("--min");
